@@ -158,7 +158,7 @@ class Check:
                 self.obligations.append((rel + ":" + t, True))
         if self.tier == "thorough" and os.environ.get("VERIF_NO_COQCHK") != "1":
             if not self._coqchk(rel):
-                return False, "coqchk (independent checker) rejects " + rel, self.extra.get("coqchk", {}).get("tail", "")
+                return False, "coqchk (independent checker) rejects " + rel, "\n".join(self.extra.get("coqchk", {}).get("tail", []))
         return True, None, out
 
     def _coqchk(self, rel):
